@@ -250,7 +250,10 @@ def set_patches(patches, pixels, patch_centers, offset, offset_index):
     h_r, h_c = (int(l_r + patch_shape[0] % 2), int(l_c + patch_shape[1] % 2))
     for patches_with_offsets, point in zip(patches, patch_centers):
         patch = patches_with_offsets[offset_index]
-        p = point + offset[0]
+        # centre the patch on the pixel extract_patches rounds to (np.round),
+        # not on the truncated coordinate, so that extracting and setting at
+        # the same sub-pixel centre address the same window
+        p = np.round(point + offset[0])
         p_r = int(p[0])
         p_c = int(p[1])
         pixels[:, p_r - l_r : p_r + h_r, p_c - l_c : p_c + h_c] = patch
